@@ -28,10 +28,10 @@ class Crate:
         self.data = data
         self.name = data["crate"]
         self.ctype = data["crate_type"]
+        self.adts = {a["path"]: a for a in data["adts"]}
         self.bodies = {}
         for b in data["bodies"]:
             self.bodies[b["path"]] = Body(self, b)
-        self.adts = {a["path"]: a for a in data["adts"]}
         self.statics = data["statics"]
 
     def body(self, suffix):
@@ -101,7 +101,8 @@ class Body:
                 tg = defaultdict(set)
                 for v, bb in t["ts"]:
                     tg[bb].add(v)
-                tg[t["else"]].add("else")
+                if not self._else_infeasible(blk, t):
+                    tg[t["else"]].add("else")
                 for bb, ls in tg.items():
                     self.succ[i].append((bb, (i, frozenset(ls))))
             elif k in ("drop", "assert"):
@@ -195,6 +196,24 @@ class Body:
                 for (p, _) in self.pred[x]:
                     if p in self.reach:
                         st.append(p)
+
+    def _else_infeasible(self, blk, t):
+        """a switch on discriminant(place) that lists every variant of the enum explicitly has no feasible otherwise edge"""
+        d = t["d"]
+        if d["k"] not in ("copy", "move") or d["p"]["pr"]:
+            return False
+        loc = d["p"]["l"]
+        for st in reversed(blk["stmts"]):
+            if st["k"] == "assign" and st["p"]["l"] == loc and not st["p"]["pr"]:
+                rv = st["rv"]
+                if rv["k"] != "discr":
+                    return False
+                adt = self.crate.adt_of_ty(rv["p"]["ty"]) if hasattr(self.crate, "adt_of_ty") else None
+                if not adt or adt["kind"] != "enum":
+                    return False
+                alld = set(v["discr"] if v["discr"] is not None else v["vi"] for v in adt["variants"])
+                return alld <= set(v for v, _ in t["ts"])
+        return False
 
     def _intersect(self, idom, a, b):
         while a != b:
@@ -684,8 +703,8 @@ def inline_call(crate, target, args):
     rty = target.local_ty(0)
     if rty.startswith(("std::vec::Vec<", "std::collections::", "std::string::String")):
         return None  # results built by effects stay opaque calls (summarised by the rules)
-    if rty == "bool":
-        return None  # predicates are expanded through their return condition (ret_cond)
+    if rty in ("bool", "char", "i8", "i16", "i32", "i64", "i128", "isize", "u8", "u16", "u32", "u64", "u128", "usize", "f32", "f64"):
+        return None  # predicates / computed scalars stay calls (expanded through their return table when needed)
     if len([d for d in target.defs.get(0, []) if d[2] == []]) > 2 or any(t["t"] is None for (_, t) in target.calls):
         return None  # dispatch tables / functions with a diverging arm are summarised by their return table
     _inline_stack.append(target.path)
